@@ -295,7 +295,7 @@ def run_transport(ctx, pool, transport, include_blocked=False):
     if transport == 'pty':
         # model sensitivity: the code as it was (no re-poll after the slow-platform check) must be caught
         cfg2 = tlc.write_cfg(os.path.join(ctx.work, 'pty_unfixed.cfg'), constants=consts[:-1] + [('Fixed', '= FALSE')], invariants=T['invs'])
-        r2 = tlc.run(T['module'], cfg2, ctx.work, workers=4, timeout=300, outname='pty_unfixed.out')
+        r2 = tlc.run(T['module'], cfg2, ctx.work, workers=4, timeout=300, outname='pty_unfixed.out', only='EofOnlyWhenDrained')
         if r2['violated'] != 'EofOnlyWhenDrained':
             raise tlc.TLCError('PtyRead with Fixed=FALSE should violate EofOnlyWhenDrained, got %s' % r2['violated'])
     reader = T.get('reader') or set().union(*T['kinds'].values())
